@@ -63,7 +63,7 @@ def bind_case(case: dict) -> dict:
 
 
 FILES = ["a.py", "src/a.py", "src/b.c", "src/sub/c.txt", "src/sub/deep/d.py", "docs/x.md", "docs/a.py", "a*b.txt", "q?.txt",
-         "tools/gen.py", "tools/genx.py", "zz"]
+         "tools/gen.py", "tools/genx.py", "zz", "docs/chapter\none.txt"]       # (the last name holds a line break)
 PATTERN_POOL = ["*", "src/*", "*.py", "src/*.c", "docs/*", "src/sub/*", "a.py", "tools/gen*.py", "a\\*b.txt", "q\\?.txt", "*/a.py",
                 "src/*/c.txt", "*a*", "t*/g*", "zz", "src/sub/deep/d.py", "q?.txt", "src/?.c", "*.??"]
 
